@@ -163,6 +163,52 @@ func constInt(repo, file, name string) int {
 	return 0
 }
 
+// constProduct: the value of the package-level constant `name` whose initialiser is an integer literal or a product of
+// integer literals (`32 * 1024`).
+func constProduct(repo, file, name string) int {
+	_, f := parseFile(filepath.Join(repo, file))
+	var eval func(e ast.Expr) (int, bool)
+	eval = func(e ast.Expr) (int, bool) {
+		switch t := e.(type) {
+		case *ast.BasicLit:
+			if t.Kind == token.INT {
+				v, err := strconv.ParseInt(t.Value, 0, 64)
+				return int(v), err == nil
+			}
+		case *ast.ParenExpr:
+			return eval(t.X)
+		case *ast.BinaryExpr:
+			a, ok1 := eval(t.X)
+			b, ok2 := eval(t.Y)
+			if ok1 && ok2 && t.Op == token.MUL {
+				return a * b, true
+			}
+		}
+		return 0, false
+	}
+	for _, d := range f.Decls {
+		gd, ok := d.(*ast.GenDecl)
+		if !ok {
+			continue
+		}
+		for _, sp := range gd.Specs {
+			vs, ok := sp.(*ast.ValueSpec)
+			if !ok {
+				continue
+			}
+			for i, n := range vs.Names {
+				if n.Name == name && i < len(vs.Values) {
+					if v, ok := eval(vs.Values[i]); ok {
+						return v
+					}
+				}
+			}
+		}
+	}
+	fail("%s: constant %s with an integer (product) initialiser not found", file, name)
+	return 0
+}
+
 // fieldInt: the integer in the value of the key `field` of a composite literal inside function `fn`.
 func fieldInt(repo, file, fn, field string) int {
 	_, f := parseFile(filepath.Join(repo, file))
@@ -187,6 +233,52 @@ func fieldInt(repo, file, fn, field string) int {
 	}
 	if !found {
 		fail("%s: field %s in %s not found", file, field, fn)
+	}
+	return res
+}
+
+// chanCap: the capacity of the channel made for the key `field` of a composite literal inside function `fn`
+// (`field: make(chan T)` = 0, `field: make(chan T, n)` = n).
+func chanCap(repo, file, fn, field string) int {
+	_, f := parseFile(filepath.Join(repo, file))
+	res, found := 0, false
+	for _, d := range f.Decls {
+		fd, ok := d.(*ast.FuncDecl)
+		if !ok || fd.Name.Name != fn || fd.Body == nil {
+			continue
+		}
+		ast.Inspect(fd.Body, func(n ast.Node) bool {
+			kv, ok := n.(*ast.KeyValueExpr)
+			if !ok || found {
+				return true
+			}
+			id, ok := kv.Key.(*ast.Ident)
+			if !ok || id.Name != field {
+				return true
+			}
+			ce, ok := kv.Value.(*ast.CallExpr)
+			if !ok {
+				return true
+			}
+			if fn, ok := ce.Fun.(*ast.Ident); !ok || fn.Name != "make" || len(ce.Args) == 0 {
+				return true
+			}
+			if _, ok := ce.Args[0].(*ast.ChanType); !ok {
+				return true
+			}
+			if len(ce.Args) == 1 {
+				res, found = 0, true
+			} else if bl, ok := ce.Args[1].(*ast.BasicLit); ok && bl.Kind == token.INT {
+				v, err := strconv.ParseInt(bl.Value, 0, 64)
+				if err == nil {
+					res, found = int(v), true
+				}
+			}
+			return true
+		})
+	}
+	if !found {
+		fail("%s: channel made for field %s in %s not found (or its capacity is not a literal)", file, field, fn)
 	}
 	return res
 }
@@ -341,6 +433,12 @@ func moreFacts(repo string) string {
 		fieldInt(repo, "services/limiter.go", "NewLimiter", "burst"), fieldInt(repo, "services/limiter.go", "NewLimiter", "interval"))
 	fmt.Fprintf(&b, "\n/-- idle timeout (seconds) the server wraps every connection with: `TimeoutConn(newConn, time.Second*N)` in (*Honeytrap).handle -/\ndef idleTimeout : Nat := %d\n",
 		callArgInt(repo, "server/honeytrap.go", "handle", "TimeoutConn", 1))
+	fmt.Fprintf(&b, "\n/-- capacity of the push-signal channel `rchan` made in (*State).NewSocket, listener/canary/socket.go -/\ndef canarySignalCap : Nat := %d\n",
+		chanCap(repo, "listener/canary/socket.go", "NewSocket", "rchan"))
+	fmt.Fprintf(&b, "\n/-- capacity of the reader-signal channel `in` of a virtual connection, listener/agent -/\ndef agentSignalCap : Nat := %d\n",
+		chanCap(repo, "listener/agent/agent.go", "serv", "in"))
+	fmt.Fprintf(&b, "\n/-- `maxPayload` in listener/agent/connection.go: the most one message carries of a service's Write -/\ndef agentMaxPayload : Nat := %d\n",
+		constProduct(repo, "listener/agent/connection.go", "maxPayload"))
 	verbs := memcachedStorage(repo)
 	var q []string
 	for _, v := range verbs {
